@@ -83,13 +83,20 @@ def gen_table(rng, n=None, time=None, nan=False):
         for _ in range(n):
             cur += rng.choice([0, 0, 1, 1, 1, 2, 3, 6])
             t.append(cur)
-    return {'x': x, 'y': y, 'g': g, 'h': h, 't': t}
+    out = {'x': x, 'y': y, 'g': g, 'h': h, 't': t}
+    if time and rng.random() < 0.35:
+        # resolution of the DatetimeIndex (pandas' default for these values is microseconds): with 's' the rows sit exactly
+        # one index tick apart
+        out['t_unit'] = rng.choice(['s', 's', 'ms', 'ns'])
+    return out
 
 
 def table_df(tab):
     n = len(tab['y'])
     if tab.get('t') is not None:
         idx = pd.DatetimeIndex([EPOCH + pd.Timedelta(seconds=int(s)) for s in tab['t']])
+        if tab.get('t_unit'):
+            idx = idx.as_unit(tab['t_unit'])
     else:
         idx = pd.RangeIndex(n)
     return pd.DataFrame({'x': np.array([np.nan if v is None else float(v) for v in tab['x']], dtype='float64'),
@@ -109,6 +116,8 @@ def example_df(tab, ex):
     e = dict(_EX)
     if tab.get('t') is None:
         e['t'] = None
+    elif tab.get('t_unit'):
+        e['t_unit'] = tab['t_unit']
     df = table_df(e)
     return df if ex == 'rows' else df.iloc[:0]
 
@@ -234,6 +243,21 @@ def _sel(F, sel):
     if sel is None:
         return F
     return F[sel]
+
+
+def _wx(obj, op):
+    """an element-wise step applied to the windowed / expanding object itself (or, for the oracle, to the pandas data it
+    looks at) before the aggregation: (-w).sum(), (w + 10).mean(), (w * 2).var()"""
+    e = op.get('wexpr')
+    if e is None:
+        return obj
+    if e == 'neg':
+        return -obj
+    if e == 'add':
+        return obj + 10
+    if e == 'rsub':
+        return 100 - obj
+    return obj * 2
 
 
 def _filter_series(s, cmpname=None, c=None):
@@ -397,7 +421,7 @@ def _b_win(op, root, start, ws):
         w = _window(op, _sel(root, op.get('sel')), start, ws)
     else:
         w = _sel(_window(op, root, start, ws), op.get('sel'))
-    return _call_win(w, op)
+    return _call_win(_wx(w, op), op)
 
 
 def _b_wgb(op, root, start, ws):
@@ -446,7 +470,7 @@ def _b_exp(op, root, start, ws):
         e = _sel(root, op.get('sel')).expanding(**kw)
     else:
         e = _sel(root.expanding(**kw), op.get('sel'))
-    return _call_win(e, op)
+    return _call_win(_wx(e, op), op)
 
 
 def _b_ewm(op, root, start, ws):
@@ -617,8 +641,8 @@ def p_onepass(root, op):
         return getattr(t, op['agg'])()
     if fam == 'exp':
         if op['agg'] == 'sum0':
-            return t.expanding(min_periods=0).sum()
-        e = t.expanding(min_periods=1)
+            return _wx(t, op).expanding(min_periods=0).sum()
+        e = _wx(t, op).expanding(min_periods=1)
         if op['agg'] in ('var', 'std'):
             return getattr(e, op['agg'])(ddof=op.get('ddof', 1))
         return getattr(e, op['agg'])()
@@ -967,7 +991,7 @@ def check_prefix(case, ctx):
         if fam in ('gb', 'wgb'):
             exp = p_groupby(prefix, op)
         else:
-            exp = p_reduce(p_target(op, prefix), op)
+            exp = p_reduce(_wx(p_target(op, prefix), op), op)
         ctx.count('cmp_total')
         ctx.count('cmp_' + {'red': 'reduction', 'exp': 'reduction', 'gb': 'groupby', 'win': 'window', 'wgb': 'window_groupby'}[fam]
                   + ('_' + ('col' if op['by'][0] == 'col' else 'ser') if fam in ('gb', 'wgb') else '')
